@@ -41,6 +41,29 @@ pub struct Case {
     pub max_depth: u8,
     /// set $ORIGIN at the top of the root file
     pub root_origin: Option<MName>,
+    /// additional $INCLUDE directives for files that are already part of the tree
+    /// (file selector, includer selector, position): the same file included more than once
+    #[serde(default)]
+    pub repeats: Vec<(u16, u16, u16)>,
+}
+
+/// Files that are included from more than one place.  They are leaves (no includes of
+/// their own) and are rendered in the plainest form (absolute names, explicit TTL and
+/// class), so that their single text means the same records in every including context.
+fn shared_files(case: &Case) -> Vec<bool> {
+    let n = case.files.len();
+    let mut shared = vec![false; n];
+    for (f, _, _) in &case.repeats {
+        let j = *f as usize % n;
+        if j == 0 || case.files[j].missing {
+            continue;
+        }
+        let has_children = (1..n).any(|k| (case.files[k].parent as usize % k) == j);
+        if !has_children {
+            shared[j] = true;
+        }
+    }
+    shared
 }
 
 static COUNTER: AtomicU64 = AtomicU64::new(0);
@@ -56,6 +79,7 @@ struct Rendered {
     flat: Option<Vec<u8>>,
     max_nesting: usize,
     context_dependent_after_include: bool,
+    repeated_includes: usize,
 }
 
 fn origin_text(o: &MName) -> String {
@@ -77,16 +101,31 @@ fn render_file(case: &Case, idx: usize, path: &Path, level: usize, ctx: &mut PCt
     let spec = &case.files[idx];
     out.max_nesting = out.max_nesting.max(level);
     // children of this file in order of position
-    let mut children: Vec<usize> = (1..case.files.len()).filter(|&j| (case.files[j].parent as usize % j) == idx).collect();
-    children.sort_by_key(|&j| (case.files[j].position as usize % (spec.runs.len() + 1), j));
+    let shared = shared_files(case);
+    // (file, slot): the primary include of every child plus the repeated includes of shared files
+    let mut children: Vec<(usize, usize)> = (1..case.files.len())
+        .filter(|&j| (case.files[j].parent as usize % j) == idx)
+        .map(|j| (j, case.files[j].position as usize % (spec.runs.len() + 1)))
+        .collect();
+    if !shared[idx] {
+        for (f, p, pos) in &case.repeats {
+            let j = *f as usize % case.files.len();
+            let parent = *p as usize % case.files.len();
+            if shared[j] && parent == idx && parent != j && !shared[parent] {
+                children.push((j, *pos as usize % (spec.runs.len() + 1)));
+                out.repeated_includes += 1;
+            }
+        }
+    }
+    children.sort_by_key(|&(j, slot)| (slot, j));
     let mut text: Vec<u8> = Vec::new();
     let mut line = 1usize;
     let mut child_iter = children.into_iter().peekable();
     let mut tape_pos = 0usize;
     for slot in 0..=spec.runs.len() {
         // includes placed before run `slot`
-        while let Some(&j) = child_iter.peek() {
-            if case.files[j].position as usize % (spec.runs.len() + 1) != slot {
+        while let Some(&(j, child_slot)) = child_iter.peek() {
+            if child_slot != slot {
                 break;
             }
             child_iter.next();
@@ -128,7 +167,35 @@ fn render_file(case: &Case, idx: usize, path: &Path, level: usize, ctx: &mut PCt
                 (None, None) => {}
                 _ => *flat_ok = false,
             }
-            if !render_file(case, j, &child_path, level + 1, &mut child_ctx, out, flat, flat_ok) {
+            if shared[j] {
+                // plain rendering, independent of the including context
+                out.max_nesting = out.max_nesting.max(level + 1);
+                let mut pctx = PCtx::default();
+                let mut text_j: Vec<u8> = Vec::new();
+                let mut line_j = 1usize;
+                for run in &child.runs {
+                    if run.is_empty() {
+                        continue;
+                    }
+                    let mut p = print(run, &[], &mut pctx);
+                    if !p.text.ends_with(b"\n") {
+                        p.text.extend_from_slice(b"\n");
+                    }
+                    let n_lines = p.text.iter().filter(|b| **b == b'\n').count();
+                    for (l, r) in p.expected {
+                        out.expected.push((child_path.clone(), line_j + l - 1, r));
+                    }
+                    line_j += n_lines;
+                    flat.extend_from_slice(&p.text);
+                    text_j.extend_from_slice(&p.text);
+                }
+                out.files.insert(child_path.clone(), text_j);
+                if pctx.prev_owner.is_some() {
+                    child_ctx.prev_owner = pctx.prev_owner;
+                    child_ctx.prev_ttl = pctx.prev_ttl;
+                    child_ctx.prev_class = pctx.prev_class;
+                }
+            } else if !render_file(case, j, &child_path, level + 1, &mut child_ctx, out, flat, flat_ok) {
                 out.files.insert(path.to_path_buf(), text);
                 return false;
             }
@@ -188,6 +255,7 @@ pub fn oracle(case: &Case, st: &mut Stats) -> Verdict {
         flat: None,
         max_nesting: 0,
         context_dependent_after_include: false,
+        repeated_includes: 0,
     };
     let mut ctx = PCtx::default();
     let mut flat: Vec<u8> = Vec::new();
@@ -330,6 +398,9 @@ pub fn oracle(case: &Case, st: &mut Stats) -> Verdict {
     if out.context_dependent_after_include {
         st.class("context-dependent-record-after-include");
     }
+    if out.repeated_includes > 0 && complete {
+        st.class("a-file-included-more-than-once");
+    }
     if out.max_nesting >= 2 && out.context_dependent_after_include {
         st.nontrivial(case, || json!({"files": out.files.len(), "nesting": out.max_nesting, "layout": describe()}));
     }
@@ -351,7 +422,13 @@ fn file_spec() -> impl Strategy<Value = FileSpec> {
 }
 
 fn case_strategy() -> impl Strategy<Value = Case> {
-    (prop::collection::vec(file_spec(), 1..7), 0u8..5, prop::option::weighted(0.7, crate::gen::pool_name(3))).prop_map(|(files, max_depth, root_origin)| Case { files, max_depth, root_origin })
+    (
+        prop::collection::vec(file_spec(), 1..7),
+        0u8..5,
+        prop::option::weighted(0.7, crate::gen::pool_name(3)),
+        prop_oneof![1 => Just(Vec::new()).boxed(), 1 => prop::collection::vec((any::<u16>(), any::<u16>(), any::<u16>()), 1..4).boxed()],
+    )
+        .prop_map(|(files, max_depth, root_origin, repeats)| Case { files, max_depth, root_origin, repeats })
 }
 
 pub fn run(ctx: &Ctx, report: &mut Report) {
